@@ -1,1 +1,22 @@
 pub const CR_LF: [u8; 2] = [b'\r', b'\n'];
+
+/// Length of the datagram frame at the start of `src` (address, length, CRLF, payload), or `None`
+/// while it has not arrived completely.
+pub fn udp_frame_len(src: &[u8]) -> anyhow::Result<Option<usize>> {
+    use crate::protocol::socks5::Socks5AddressType;
+    let Some(addr_type) = src.first() else {
+        return Ok(None);
+    };
+    let addr_len = match Socks5AddressType::try_from(*addr_type)? {
+        Socks5AddressType::Ipv4 => 1 + 4 + 2,
+        Socks5AddressType::Ipv6 => 1 + 8 * 2 + 2,
+        Socks5AddressType::Domain if src.len() < 2 => return Ok(None),
+        Socks5AddressType::Domain => 1 + 1 + src[1] as usize + 2,
+    };
+    if src.len() < addr_len + 2 + CR_LF.len() {
+        return Ok(None);
+    }
+    let len = u16::from_be_bytes([src[addr_len], src[addr_len + 1]]) as usize;
+    let total = addr_len + 2 + CR_LF.len() + len;
+    Ok(if src.len() < total { None } else { Some(total) })
+}
